@@ -13,7 +13,8 @@
 //	t.call / t.cleanupCloseStack / t.RunContinuation (run Lua code)              run
 //	go func(){..}()                                                              spawn (+ proc "<name>.go")
 //	t.end(..)                                                                    callEnd
-//	any other call that is not a builtin / errors.* / fmt.* / a thread-local getter   touch
+//	any other call that is not a builtin / errors.* / fmt.* / a thread-local getter /
+//	a method of the thread's own closeStack                                     touch
 //
 // X is `self` for the method receiver and `peer` for the identifier `caller`.
 // Usage: threadevents -repo /repo -out <file.lean>
@@ -163,6 +164,11 @@ func (w *walker) call(c *ast.CallExpr) {
 			return
 		}
 		if id, ok := f.X.(*ast.Ident); ok && purePkgs[id.Name] {
+			return
+		}
+		// t.closeStack.size() / .truncate() / .push() / .pop(): the thread's own close stack, touched by its own
+		// goroutine only — not shared runtime state
+		if inner, ok := f.X.(*ast.SelectorExpr); ok && inner.Sel.Name == "closeStack" && w.role(inner.X) == ".self" {
 			return
 		}
 		if r := w.role(f.X); r != "" {
